@@ -3,6 +3,12 @@ current tree; `expect` lists substrings of the violation key the rule must repor
 M = []
 
 
+def mutp(prop, name, desc, expect, patch):
+    """A mutant given as a ready-made patch file (path relative to /verif), e.g. an independently seeded change."""
+    M.append({"prop": prop, "name": name, "desc": desc, "expect": list(expect) if isinstance(expect, (list, tuple)) else [expect],
+              "edits": [], "patch": patch})
+
+
 def mut(prop, name, desc, expect, *edits):
     M.append({"prop": prop, "name": name, "desc": desc, "expect": list(expect) if isinstance(expect, (list, tuple)) else [expect],
               "edits": list(edits)})
@@ -704,6 +710,96 @@ mut("C18", "seeded_c18a_binary_search_on_unsorted", "already-exported ids are lo
 mut("C18", "dedup_against_last_only", "only the most recently exported id is compared", ["C18.R1/scene::replicate_into/push"],
     ("src/scene.rs", "                if exported_ids.contains(&component.id) {", "                if exported_ids.last() == Some(&component.id) {"))
 
+mut("C13", "reintroduce_d15_resend_ignores_cursor", "local re-emission drains everything, including events the send cursor already consumed", ["C13.R4/ClientEvent::events_id/Connected->Disconnected"],
+    ("src/shared/event/client_event.rs", "client_events.send_batch(events.drain().skip(sent).map(|event| FromClient {", "client_events.send_batch(events.drain().skip(0).map(|event| FromClient {"))
+mut("C13", "resend_skips_by_buffer_length", "the number of skipped events is derived from the buffer alone, not from the send cursor", ["C13.R4/ClientEvent::events_id/Connected->Disconnected"],
+    ("src/shared/event/client_event.rs", "        let sent = events.len() - reader.len(events);", "        let sent = events.len() - events.len().min(events.iter_current_update_events().count());"))
+mut("C13", "resend_gets_wrong_reader", "the resend system hands over a resource that is not the event's send cursor", ["C13.R4/ClientEvent::events_id/Connected->Disconnected"],
+    ("src/client/event.rs", """        let reader = readers
+            .get_mut_by_id(event.reader_id())
+            .expect("event reader resource should be accessible");
+
+        // SAFETY: passed pointers were obtained using this event data.
+        unsafe {
+            event.resend_locally(""", """        let reader = readers
+            .get_mut_by_id(event.events_id())
+            .expect("event reader resource should be accessible");
+
+        // SAFETY: passed pointers were obtained using this event data.
+        unsafe {
+            event.resend_locally("""))
+
+mut("C03", "seeded_c03b_removal_ids_pooled_uncleared", "removal-id vectors go back to the pool without being cleared", ["C03.R8/server::removal_buffer::RemovalBuffer.ids_buffer"],
+    ("src/server/removal_buffer.rs", """    pub(super) fn clear(&mut self) {
+        self.ids_buffer
+            .extend(self.removals.drain().map(|(_, mut components)| {
+                components.clear();
+                components
+            }));""", """    pub(super) fn clear(&mut self) {
+        self.ids_buffer
+            .extend(self.removals.drain().map(|(_, components)| components));"""))
+mut("C04", "seeded_c04b_unmapped_record_cleared_before_check", "the record of unmapped entities is cleared before the event's own entities are mapped (trigger targets recorded earlier are forgotten)", ["C04.R5/shared::event::server_event::default_deserialize_mapped/invalid_entities.clear-only-after-refusal"],
+    ("src/shared/event/server_event.rs", """    let mut event: E = postcard_utils::from_buf(bytes)?;
+    event.map_entities(ctx);""", """    let mut event: E = postcard_utils::from_buf(bytes)?;
+    ctx.invalid_entities.clear();
+    event.map_entities(ctx);"""))
+mut("C05", "seeded_c05b_empty_set_reused", "start_tick keeps using an empty active set (which may already have excluded clients)", ["C05.R2/start_tick/opens-a-set-on-every-call"],
+    ("src/shared/event/server_event.rs", """    pub(crate) fn start_tick(&mut self) {
+        self.buffer.push(self.cache.pop().unwrap_or_default());""", """    pub(crate) fn start_tick(&mut self) {
+        if self
+            .active_tick()
+            .is_some_and(|set| set.events.is_empty())
+        {
+            return;
+        }
+
+        self.buffer.push(self.cache.pop().unwrap_or_default());"""))
+mut("C05", "set_opened_only_when_events_pending", "the per-frame system opens a set only when the server is running... and some condition", ["C05.R2/send_or_buffer/opens-set-first"],
+    ("src/server/event.rs", "    buffered_events.start_tick();", "    if !clients.is_empty() {\n        buffered_events.start_tick();\n    }"))
+
+mut("C03", "reintroduce_d12_despawn_keeps_removals", "a despawned entity keeps the removals buffered for it earlier in the tick window", ["C03.R9/server::buffer_despawns/despawn-supersedes-removals"],
+    ("src/server.rs", """        // Removals buffered in previous frames are superseded by the despawn.
+        removal_buffer.remove_entity(trigger.target());
+""", ""))
+mut("C03", "removals_forgotten_for_other_entity", "the removals of the observer entity instead of the despawned entity are forgotten", ["C03.R9/server::buffer_despawns/despawn-supersedes-removals"],
+    ("src/server.rs", "        removal_buffer.remove_entity(trigger.target());", "        removal_buffer.remove_entity(trigger.observer());"))
+
+mutp("C07", "seeded_c07b_merged_independent_lookup", "make_*_independent look the entry up among events and triggers by user type (first match wins): seeded change c07b",
+     ["C07.R4/<bevy_app::app::App as shared::event::server_trigger::ServerTriggerAppExt>::make_trigger_independent/marks-own-kind-only"], "seeded/c07b/patch.diff")
+mut("C08", "seeded_c08b_lost_despawn_only_with_tick", "the despawn for an entity that lost visibility is skipped when the client has no mutation tick for it (a same-tick despawn removed the tick)", ["C08.R5/collect_despawns/lost-entities-despawned-unconditionally"],
+    ("src/server.rs", """            for entity in visibility.drain_lost() {
+                trace!("writing visibility lost""", """            for entity in visibility.drain_lost() {
+                if ticks.mutation_tick(entity).is_none() {
+                    continue;
+                }
+                trace!("writing visibility lost"""))
+mut("C09", "seeded_c09b_purge_only_authorized", "queued messages are purged only for clients that were authorized", ["C09.R2/server/purge-on-client-removal/unconditional"],
+    ("src/server.rs", """    mut server: ResMut<RepliconServer>,
+) {
+    debug!("client `{}` disconnected", trigger.target());
+    server.remove_client(trigger.target());""", """    mut server: ResMut<RepliconServer>,
+    clients: Query<(), With<ClientTicks>>,
+) {
+    debug!("client `{}` disconnected", trigger.target());
+    if clients.contains(trigger.target()) {
+        server.remove_client(trigger.target());
+    }"""))
+mut("C06", "seeded_c06b_received_not_purged", "remove_client no longer purges the removed client's received messages", ["C06.R4/RepliconServer::remove_client/both-queues"],
+    ("src/shared/backend/replicon_server.rs", """        for receive_channel in &mut self.received_messages {
+            receive_channel.retain(|&(entity, _)| entity != client);
+        }
+""", ""))
+mut("C11", "seeded_c11b_expired_lists_pooled_uncleared", "entity lists are cleared when released by an ack but the timeout path still pools them uncleared", ["C11.R6/shared::replication::client_ticks::EntityBuffer"],
+    ("src/shared/replication/client_ticks.rs", """        let mut entities = entity_buffer.pop().unwrap_or_default();
+        entities.clear();
+""", """        let entities = entity_buffer.pop().unwrap_or_default();
+"""),
+    ("src/shared/replication/client_ticks.rs", """        entity_buffer.push(mutate_info.entities);
+""", """        let mut released = mutate_info.entities;
+        released.clear();
+        entity_buffer.push(released);
+"""))
+
 # first-sight completeness (shared rule: C07.R6 / C03.R7 / C08.R6)
 mut("C07", "seeded_c07a_rate_limited_components_skipped", "rate-limited components are skipped before the per-client pass unless just added (late-authorized clients never get them)", ["C07.R6/collect_changes/every-component-reaches-clients"],
     ("src/server.rs", """                let ctx = SerializeCtx {
@@ -1391,5 +1487,16 @@ benign("entity_serde_from_instead_of_as", "the entity codec widens with u64::fro
     let flag = entity.generation() > 1;
     flagged_index |= flag as u64;""", """    let flag = entity.generation() > 1;
     let flagged_index = u64::from(entity.index()) << 1 | u64::from(flag);"""))
+
+benign("d12_alternative_repair_sweep_before_collect", "removals of despawned entities are forgotten in send_replication (for every entity in the despawn buffer) instead of in the observer",
+    ("src/server.rs", """        // Removals buffered in previous frames are superseded by the despawn.
+        removal_buffer.remove_entity(trigger.target());
+""", ""),
+    ("src/server.rs", """    collect_mappings(&mut serialized, &mut clients)?;
+    collect_despawns(""", """    for &entity in despawn_buffer.iter() {
+        removal_buffer.remove_entity(entity);
+    }
+    collect_mappings(&mut serialized, &mut clients)?;
+    collect_despawns("""))
 
 BENIGN = B
